@@ -17,7 +17,10 @@ RULE = (
     "with owner+operators), LeaveRoom reply, UserJoinedRoom, UserLeftRoom, PrivateRoomMembers, PrivateRoomOperators, "
     "PrivateRoomGrant/RevokeMembership, PrivateRoomMembershipGranted/Revoked, PrivateRoomGrant/RevokeOperator, "
     "PrivateRoomOperatorGranted/Revoked, RoomTickers, RoomTickerAdded/Removed, GetUserStatus, GetUserStats, "
-    "AddPrivilegedUser, PrivilegedUsers, CheckPrivileges, RoomChatMessage, PublicChatMessage, PrivateChatMessage. "
+    "AddUser reply (exists / not), AddPrivilegedUser, PrivilegedUsers, CheckPrivileges, RoomChatMessage, "
+    "PublicChatMessage, PrivateChatMessage. Every stats carrier (JoinRoom user data, UserJoinedRoom, GetUserStats, "
+    "AddUser) draws each of the four counters from {0 (weight 1/3), two small values, a medium one, one near the "
+    "uint32 limit}, so a counter first reported as 0 and a counter dropping to 0 for a known user are common. "
     "Each is sent as a real frame by the simulated server to ONE real logged-in SoulSeekClient (virtual loop, "
     "in-memory TCP), one at a time, 5 ms of virtual time apart. Generation is 'swarm' style: a case draws a subset "
     "of message kinds (random 2..7 kinds, all kinds, a 'user life cycle' subset or a 'private-room roles' subset), "
@@ -49,6 +52,9 @@ ASSUMPTIONS = [
     "keeps UserManager.privileged_users for exactly that purpose",
     "status/stats/slots/country of users that are not referenced are not compared (objects are weakly held); they "
     "are re-announced by the join message that makes the user referenced",
+    "statistics fold: the last announced value of each counter wins, 0 included (0 files / 0 uploads are real "
+    "values; `None` only means never announced); an unsolicited AddUser reply is folded like the solicited one "
+    "(status, stats, country when the user exists; nothing otherwise) and emits no public Room*/User* event",
     "GetUserPrivileges has no notification handler in the library (command reply only) and is not generated",
     "user_count of RoomList and ticker order are not part of the property",
     "an event for a message that changes nothing in the replica (e.g. ticker removal of an absent user) may or "
@@ -67,7 +73,8 @@ ROOM_OPS = ['leave', 'member_granted', 'member_revoked', 'op_granted', 'op_revok
 ROOM_USER_OPS = ['user_left', 'grant_member', 'revoke_member', 'grant_op', 'revoke_op', 'ticker_removed']
 ROOM_USERS_OPS = ['members', 'operators']
 CHAT_ROOM_OPS = ['room_msg', 'public_msg']
-OPS = (['room_list', 'join', 'user_joined', 'tickers', 'ticker_added', 'status', 'stats', 'add_priv', 'priv_users',
+OPS = (['room_list', 'join', 'user_joined', 'tickers', 'ticker_added', 'status', 'stats', 'add_user', 'add_priv',
+        'priv_users',
         'check_priv', 'private_msg'] + ROOM_OPS + ROOM_USER_OPS + ROOM_USERS_OPS + CHAT_ROOM_OPS)
 
 EVENT_CLASSES = [
@@ -86,7 +93,8 @@ _room = st.integers(0, 1)
 _user = st.integers(0, 2)
 _users = st.lists(_user, max_size=3, unique=True)
 _text = st.integers(0, len(TEXTS) - 1)
-_stat = st.integers(0, 40)
+# one digit per counter (avg_speed, uploads, files, folders); digit 0 IS the value 0 (see STAT_VALUES)
+_stat = st.lists(st.sampled_from([0, 0, 1, 2, 3, 4]), min_size=4, max_size=4)
 
 
 @st.composite
@@ -135,6 +143,9 @@ def _op(draw, kind, room_bias, user_bias=None):
         return {'op': kind, 'u': draw(_user), 'st': draw(st.integers(0, 2)), 'p': draw(st.booleans())}
     if kind == 'stats':
         return {'op': kind, 'u': draw(_user), 's': draw(_stat)}
+    if kind == 'add_user':
+        return {'op': kind, 'u': draw(_user), 'ex': draw(st.integers(0, 4)) > 0, 'st': draw(st.integers(0, 2)),
+                's': draw(_stat), 'c': draw(st.integers(0, 2))}
     if kind == 'add_priv':
         return {'op': kind, 'u': draw(_user)}
     if kind == 'priv_users':
@@ -142,7 +153,8 @@ def _op(draw, kind, room_bias, user_bias=None):
     return {'op': 'check_priv', 'n': draw(st.integers(0, 5))}
 
 
-LIFECYCLE = ['priv_users', 'priv_users', 'add_priv', 'status', 'status', 'stats', 'user_joined', 'user_joined',
+LIFECYCLE = ['priv_users', 'priv_users', 'add_priv', 'status', 'status', 'stats', 'stats', 'add_user', 'user_joined',
+             'user_joined',
              'user_left', 'user_left', 'join', 'leave', 'room_list']      # (weighted)
 ROLES = ['members', 'operators', 'grant_member', 'revoke_member', 'member_granted', 'member_revoked', 'grant_op',
          'revoke_op', 'op_granted', 'op_revoked', 'room_list', 'join']
@@ -189,9 +201,17 @@ def _ilist(v, n, limit=3):
     return out[:limit]
 
 
+def _sdigits(v):
+    """Statistics operand -> four digits 0..4 (list form; a bare int is read base 5, as older replays have it)."""
+    if isinstance(v, int) and not isinstance(v, bool):
+        v = [(v % 625) // 5 ** k % 5 for k in range(4)]
+    v = v if isinstance(v, list) else []
+    return [_i(v[k] if k < len(v) else 0, 5) for k in range(4)]
+
+
 def _entry(d):
     d = d if isinstance(d, dict) else {}
-    return {'u': _i(d.get('u'), 3), 'st': _i(d.get('st'), 3), 's': _i(d.get('s'), 1000), 'sl': _i(d.get('sl'), 100),
+    return {'u': _i(d.get('u'), 3), 'st': _i(d.get('st'), 3), 's': _sdigits(d.get('s')), 'sl': _i(d.get('sl'), 100),
             'c': _i(d.get('c'), 3)}
 
 
@@ -246,7 +266,10 @@ def _sanitise(case):
             o['u'], o['st'], o['p'] = _i(d.get('u'), 3), _i(d.get('st'), 3), bool(d.get('p')) if isinstance(
                 d.get('p'), (bool, int)) else False
         elif k == 'stats':
-            o['u'], o['s'] = _i(d.get('u'), 3), _i(d.get('s'), 1000)
+            o['u'], o['s'] = _i(d.get('u'), 3), _sdigits(d.get('s'))
+        elif k == 'add_user':
+            o['u'], o['ex'] = _i(d.get('u'), 3), bool(d.get('ex')) if isinstance(d.get('ex'), (bool, int)) else False
+            o['st'], o['s'], o['c'] = _i(d.get('st'), 3), _sdigits(d.get('s')), _i(d.get('c'), 3)
         elif k == 'add_priv':
             o['u'] = _i(d.get('u'), 3)
         elif k == 'priv_users':
@@ -257,9 +280,18 @@ def _sanitise(case):
     return blocked, ops
 
 
+# value of each counter per digit: digit 0 is a real 0 ("shares nothing", "no uploads yet"), the other values are
+# distinct across the four counters so that a swapped field is visible; the last one is close to the uint32 limit
+STAT_VALUES = (
+    (0, 101, 102, 15000, 4000000001),          # avg_speed
+    (0, 2001, 2002, 250000, 2 ** 40 + 3),      # uploads (uint64)
+    (0, 30001, 30002, 350000, 4000000003),     # shared_file_count
+    (0, 400001, 400002, 450000, 4000000004),   # shared_folder_count
+)
+
+
 def _stats(s):
-    # four distinct values so that a swapped field is visible
-    return (100 + s, 2000 + s, 30000 + s, 400000 + s)
+    return tuple(STAT_VALUES[f][s[f]] for f in range(4))
 
 
 # ---------------------------------------------------------------------------
@@ -322,6 +354,11 @@ def _build(o):
         return M.GetUserStatus.Response(U(), o['st'], o['p'])
     if k == 'stats':
         return M.GetUserStats.Response(U(), UserStats(*_stats(o['s'])))
+    if k == 'add_user':
+        if not o['ex']:
+            return M.AddUser.Response(U(), exists=False)
+        return M.AddUser.Response(U(), exists=True, status=o['st'], user_stats=UserStats(*_stats(o['s'])),
+                                  country_code=COUNTRIES[o['c']])
     if k == 'add_priv':
         return M.AddPrivilegedUser.Response(U())
     if k == 'priv_users':
@@ -494,6 +531,11 @@ class Replica:
             self._set_user(un, k, stats=_stats(o['s']))
             w(un, 'stats')
             ev.append(('UserStatsUpdateEvent', None, un, list(_stats(o['s'])) + [un]))
+        elif k == 'add_user':
+            # reply/notification about a watched user: existing users get status, stats and country; no public event
+            if o['ex']:
+                self._set_user(un, k, status=STATUS[o['st']], stats=_stats(o['s']), country=COUNTRIES[o['c']])
+                w(un, 'status', 'stats')
         elif k == 'add_priv':
             self._set_user(un, k, privileged=True)
             w(un, 'privileged')
@@ -680,10 +722,12 @@ def run_case(case) -> CaseResult:
                 # ---- events ------------------------------------------------
                 got = rec.drain()
                 chat = k in ('room_msg', 'public_msg', 'private_msg')
-                if chat and not expected:
-                    if got:
+                if not expected:
+                    if got and chat:
                         violate(f'C19/event:blocked-sender-reported:{k}',
                                 f'{where}: sender blocked with flags {blocked[o["u"]]} but got {got}')
+                    elif got:
+                        violate(f'C19/event:unexpected:{k}:{got[0][0]}', f'{where}: expected no event, got {got}')
                 elif not got:
                     optional = noop and k in ('user_left', 'ticker_removed', 'revoke_member', 'member_revoked',
                                               'revoke_op', 'op_revoked', 'grant_member', 'member_granted',
@@ -773,10 +817,20 @@ def run_case(case) -> CaseResult:
     writers = {}
     rep = Replica(blocked, {'status': 'ONLINE', 'stats': (None,) * 4, 'slots_free': None, 'country': None,
                             'privileged': False})
+    zero_first = zero_after_nonzero = False
     for o in ops:
+        prev = {n: rep.users[n]['stats'] for n in USERS}
         _, writes = rep.apply(o)
         for key in writes:
             writers.setdefault(key, set()).add(o['op'])
+            if key[1] == 'stats':
+                for was, now in zip(prev[key[0]], rep.users[key[0]]['stats']):
+                    zero_first = zero_first or (now == 0 and was is None)
+                    zero_after_nonzero = zero_after_nonzero or (now == 0 and bool(was))
+    if zero_first:
+        res.label('stats-counter-first-reported-as-0')
+    if zero_after_nonzero:
+        res.label('stats-counter-drops-to-0-for-known-user')
     res.nontrivial = any(len(v) >= 2 for v in writers.values())
     res.key = [[o['op'], o.get('r')] for o in ops]
     for k in sorted({o['op'] for o in ops}):
@@ -810,24 +864,37 @@ def run_shard(ctx):
 
 # one deterministic case per genuine-defect kind found on the pinned tree (regressions once fixed)
 KNOWN_REPLAYS = {
+    # regression: a counter announced as 0 is a value like any other (first report and drop to 0), every carrier
+    'C19/user-view:stats:zero-is-a-value': {
+        'blocked': [0, 0, 0], 'ops': [
+            {'op': 'join', 'r': 0, 'users': [{'u': 0, 'st': 2, 's': [1, 1, 1, 1], 'sl': 1, 'c': 0},
+                                             {'u': 1, 'st': 2, 's': [3, 3, 3, 3], 'sl': 1, 'c': 1}],
+             'owner': None, 'operators': []},
+            {'op': 'stats', 'u': 1, 's': [3, 3, 0, 0]},
+            {'op': 'user_joined', 'r': 0, 'u': 2, 'st': 2, 's': [0, 0, 0, 0], 'sl': 0, 'c': 2},
+            {'op': 'user_joined', 'r': 1, 'u': 1, 'st': 1, 's': [0, 3, 0, 0], 'sl': 0, 'c': 1},
+            {'op': 'add_user', 'u': 0, 'ex': True, 'st': 2, 's': [2, 0, 2, 0], 'c': 0},
+            {'op': 'join', 'r': 1, 'users': [{'u': 2, 'st': 2, 's': [4, 4, 4, 4], 'sl': 1, 'c': 0},
+                                             {'u': 1, 'st': 2, 's': [0, 0, 1, 1], 'sl': 1, 'c': 1}],
+             'owner': None, 'operators': []}]},
     'C19/room-view:operators:after=op_granted': {
         'blocked': [0, 0, 0], 'ops': [{'op': 'op_granted', 'r': 0}]},
     'C19/room-view:users:after=join': {
         'blocked': [0, 0, 0], 'ops': [
-            {'op': 'join', 'r': 0, 'users': [{'u': 0, 'st': 2, 's': 1, 'sl': 1, 'c': 0}], 'owner': None,
+            {'op': 'join', 'r': 0, 'users': [{'u': 0, 'st': 2, 's': [1, 1, 1, 1], 'sl': 1, 'c': 0}], 'owner': None,
              'operators': []},
             {'op': 'leave', 'r': 0},
-            {'op': 'user_joined', 'r': 0, 'u': 1, 'st': 2, 's': 2, 'sl': 1, 'c': 1},
-            {'op': 'join', 'r': 0, 'users': [{'u': 0, 'st': 2, 's': 1, 'sl': 1, 'c': 0}], 'owner': None,
+            {'op': 'user_joined', 'r': 0, 'u': 1, 'st': 2, 's': [2, 2, 0, 0], 'sl': 1, 'c': 1},
+            {'op': 'join', 'r': 0, 'users': [{'u': 0, 'st': 2, 's': [1, 1, 1, 1], 'sl': 1, 'c': 0}], 'owner': None,
              'operators': []}]},
     'C19/user-view:privileged:not-remembered:announced-by=add_priv': {
         'blocked': [0, 0, 0], 'ops': [
             {'op': 'add_priv', 'u': 1},
-            {'op': 'user_joined', 'r': 0, 'u': 1, 'st': 2, 's': 2, 'sl': 1, 'c': 1}]},
+            {'op': 'user_joined', 'r': 0, 'u': 1, 'st': 2, 's': [2, 2, 0, 0], 'sl': 1, 'c': 1}]},
     'C19/user-view:privileged:not-remembered:announced-by=status': {
         'blocked': [0, 0, 0], 'ops': [
             {'op': 'status', 'u': 1, 'st': 2, 'p': True},
-            {'op': 'user_joined', 'r': 0, 'u': 1, 'st': 2, 's': 2, 'sl': 1, 'c': 1}]},
+            {'op': 'user_joined', 'r': 0, 'u': 1, 'st': 2, 's': [2, 2, 0, 0], 'sl': 1, 'c': 1}]},
 }
 
 MANIFEST_ENTRY = {
